@@ -574,3 +574,19 @@ Print Assumptions C02_tie_cleanup_sim.
 Example C02_tie_convert_to_archive_sim_nonvacuous : ltac:(let t := type of SrcTie3RepairLoop.convert_to_archive_sim_nonvacuous in exact t).
 Proof. exact SrcTie3RepairLoop.convert_to_archive_sim_nonvacuous. Qed.
 Print Assumptions C02_tie_convert_to_archive_sim_nonvacuous.
+
+(* ---------- Tie A, level 1: compress.rs translated (work package compT, gen/Src3c.v) ---------- *)
+(* the translated fail-safe decompressor (read, read_pass) is CompFailSafe.fs_read / fs_pass *)
+From MLA Require SrcTie3CompFs SrcTie3CompCarry.
+Theorem C02_tie_fs_comp_read_sim : ltac:(let t := type of SrcTie3CompFs.fs_comp_read_sim in exact t).
+Proof. exact SrcTie3CompFs.fs_comp_read_sim. Qed.
+Print Assumptions C02_tie_fs_comp_read_sim.
+Theorem C02_tie_fs_pass_sim : ltac:(let t := type of SrcTie3CompFs.fs_pass_sim in exact t).
+Proof. exact SrcTie3CompFs.fs_pass_sim. Qed.
+Print Assumptions C02_tie_fs_pass_sim.
+Theorem C02_tie_fs_new_src : ltac:(let t := type of SrcTie3CompFs.fs_new_src in exact t).
+Proof. exact SrcTie3CompFs.fs_new_src. Qed.
+Print Assumptions C02_tie_fs_new_src.
+Theorem C02_tie_C02_fs_comp_prefix_src : ltac:(let t := type of SrcTie3CompCarry.C02_fs_comp_prefix_src in exact t).
+Proof. exact SrcTie3CompCarry.C02_fs_comp_prefix_src. Qed.
+Print Assumptions C02_tie_C02_fs_comp_prefix_src.
